@@ -266,20 +266,19 @@ func checkC01(c *Ctx, r *Report) {
 	// each Get result's Data and Metadata belong together: both backends build Entry{Data, Metadata} from the same lookup
 	for _, name := range []string{"(*" + cachePkg + ".MemoryCache).Get", "(*" + cachePkg + ".FileCache).Get"} {
 		for _, f := range c.FuncsNamed(name) {
-			var lk *ssa.Lookup
-			eachInstr(f, func(in ssa.Instruction) {
-				if l, ok := in.(*ssa.Lookup); ok {
-					if _, tracked := trackedMapField(l.X); tracked && sameVal(l.Index, paramNamed(f, "key")) {
-						lk = l
-					}
+			var lk *mapLook
+			looks := lookupsIn(f)
+			for i := range looks {
+				if sameVal(looks[i].key, paramNamed(f, "key")) {
+					lk = &looks[i]
 				}
-			})
+			}
 			okMeta := false
 			eachInstr(f, func(in ssa.Instruction) {
 				// metaCopy := *ptr where ptr derives from the lookup
-				if u, ok := in.(*ssa.UnOp); ok && u.Op == token.MUL && lk != nil {
+				if u, ok := in.(*ssa.UnOp); ok && u.Op == token.MUL && lk != nil && lk.val != nil {
 					if strings.HasPrefix(structName(u.Type()), cachePkg+".EntryMetadata") {
-						if derivesFrom(u.X, func(v ssa.Value) bool { return v == ssa.Value(lk) }) {
+						if derivesFrom(u.X, func(v ssa.Value) bool { return v == lk.val }) {
 							okMeta = true
 						}
 					}
@@ -288,7 +287,7 @@ func checkC01(c *Ctx, r *Report) {
 			r.Check(lk != nil && okMeta, "C01.R5", name+": metadata of the entry looked up by the request's key", c.Pos(f.Pos()), "metadata copy derives from entries[key]", "the metadata returned is not the one stored under the requested key")
 			must := lset{}
 			if lk != nil {
-				must = li.HeldMust(lk)
+				must = li.HeldMust(lk.at)
 			}
 			r.Check(must["S"], "C01.R5", name+": lookup under the key lock", c.Pos(f.Pos()), "S held", "lookup without the key lock")
 		}
